@@ -158,6 +158,14 @@ class Extractor:
         t = self.rd.canon(n.ast, n)
         if any(w in t for w in CACHE_WORDS):
             return True
+        # a local that may hold a cached identifier (result variable of a spliced helper, several definitions)
+        from .dataflow import expansions
+
+        try:
+            if any(any(w in x for w in CACHE_WORDS) for x in expansions(self.rd, n.ast, n, depth=4)):
+                return True
+        except Exception:
+            pass
         if "isEnabledFor" in t:
             return True
         if isinstance(n.ast, ast.Name) and n.ast.id in self.rd.params and n.ast.id.startswith("only"):
@@ -222,7 +230,13 @@ class Extractor:
                             return
                     if isinstance(n.ast, ast.Return) and n.ast.value is not None and head is None:
                         v = self.rd.canon(n.ast.value, n)
-                        if not any(w in v for w in ("raw_identifier", "full_identifier")):
+                        from .dataflow import expansions
+
+                        try:
+                            vs = expansions(self.rd, n.ast.value, n, depth=4) | {v}
+                        except Exception:
+                            vs = {v}
+                        if not any(w in x for x in vs for w in ("raw_identifier", "full_identifier")):
                             trace = trace + [["end", "return " + self.canon(n.ast.value, n)]]
                     trace = trace + self.items(n)
                 explicit = all(l == "exc" for _, l in n.succ)
